@@ -187,6 +187,12 @@ func c06Matrix() []c06Case {
 			half["m"] = val.Map(map[string]val.V{"zz": val.Str("a"), strings.Split(hn, ".")[0]: mh})
 		}
 		items = append(items, decoy, both, half)
+		if first := strings.FieldsFunc(hn, func(r rune) bool { return r == '.' || r == '[' }); len(first) > 0 && first[0] != hn {
+			// an unrelated top-level SCALAR named like the first step of a path reading ("a" next to the member "a.b"
+			// of m, "l" next to "l[0]"): it has nothing to do with the member the placeholder names
+			items = append(items, val.Item{first[0]: val.Num("7"), "m": val.Map(map[string]val.V{hn: val.Str("a")}), "z": val.Str("bystander")},
+				val.Item{first[0]: val.Bool(true), hn: val.Str("a"), "m": val.Map(map[string]val.V{"zz": val.Str("a")})})
+		}
 		for _, it := range items {
 			for _, pth := range []refmodel.Path{top, nested} {
 				po := refmodel.Operand{Kind: "path", Path: pth}
@@ -264,6 +270,11 @@ func c06AliasQuirk(cs c06Case) (string, val.Item) {
 			if _, have := cs.Item[n]; !have && strings.Contains(n, ".") {
 				if v, ok := refmodel.P(strings.Split(n, ".")...).Resolve(cs.Item); ok {
 					alt[n] = v
+					quirk = "dotted-alias-as-path"
+				} else if first, ok := cs.Item[strings.Split(n, ".")[0]]; ok && first.K != val.KM && first.K != val.KL {
+					// the path reading steps into a scalar: the library fails the request ("index operator not
+					// supported") - the same listed reading of the name, another symptom
+					alt["\x00reading-fails"] = val.Bool(true)
 					quirk = "dotted-alias-as-path"
 				}
 			}
@@ -436,7 +447,7 @@ func (p *c06) evalCase(x *res, cs c06Case, rr refmodel.RenderOpts, viaClient boo
 	if got&want == 0 {
 		// two listed findings about #name placeholders: each is recognised by re-running the oracle under the
 		// library's reading; only a disagreement that this reading explains is filed under the finding
-		if q, alt := c06AliasQuirk(cs); q != "" && got&cs.Cond.Eval(alt, cs.Values) != 0 {
+		if q, alt := c06AliasQuirk(cs); q != "" && (got&cs.Cond.Eval(alt, cs.Values) != 0 || (got == refmodel.R && alt["\x00reading-fails"].K == val.KBOOL)) {
 			x.viol("wrong-outcome~"+q, "alias", fmt.Sprintf("Match(%q) with names %v on %s with %s = %s (%s); oracle admits %s", expr, names, cs.Item.Canon(), cs.Values.Canon(), outcomeName(got), msg, want), wit)
 			return
 		}
